@@ -1,12 +1,15 @@
 """C05: ignored files never produce violations; the Go and the Rego ignore matcher agree.
 
-Three layers, each compared (a) implementation against implementation / against the meaning of the
+Four layers (plus the language server call sites), each compared (a) implementation against implementation / against the meaning of the
 property (python, no model) and (b) implementation against the Coq model (Check/C05Check.v):
   pat   : one pattern x every relative path of depth <= 4 x 9 (prefix, file spelling) shapes, through
           config.FilterIgnoredPaths and through OPA (_pattern_compiler, _exclude, _file_name_relative_to_root)
   small : lists of patterns (CLI / config / per rule) on a few files: filterPaths, _global_ignore_patterns,
           excluded_file
   lint  : linter.Lint with a global and per-rule ignores for a built-in, a custom and a custom aggregate rule
+  walk  : real directory trees given as DIRECTORY arguments (absolute, trailing separator, ".", relative; prefix = root,
+          root + "/", none) to FilterIgnoredPaths / Lint / the binary; the names of the argument and of the directories above
+          it come from the pattern alphabet; the model walks the tree itself (Model/Discover.v walk + Model/ExcludeWalk.v)
 The glob engine is an oracle: its answers are tabulated by the harness straight from gobwas/glob."""
 import collections, json, os, re
 from concurrent.futures import ThreadPoolExecutor
@@ -104,6 +107,49 @@ def lint_v(cases):
     return (HEAD + 'Definition data : list (list int) := %s.\n' % to_ints_v(data) +
             'Definition R := Eval vm_compute in lint_report data.\n'
             'Definition RN := Eval vm_compute in [fst R].\nDefinition RL := Eval vm_compute in snd R.\nPrint RN. Print RL.\n')
+
+
+def lcase_bytes(c, files):
+    ign = c['rule_ignore']
+    hit = c.get('hit') or {}
+    return (bstr(c['prefix']) + bstrs(files) + bstrs(c['cli']) + bopt(bstrs(c['cfg']) if c['cfg_set'] else None)
+            + bstrs(ign.get('builtin')) + bstrs(ign.get('custom')) + bstrs(ign.get('agg'))
+            + bstrs(c['cols']) + btable(c['table']) + b8(1 if c.get('err') else 0) + b16(c['files_scanned'])
+            + bstrs(hit.get('builtin')) + bstrs(hit.get('custom')) + bstrs(hit.get('agg')))
+
+
+def walk_tree(c):
+    """the tree the argument denotes as nested dicts (None = file), from the entries below the root"""
+    root = {}
+    for e in c['entries']:
+        cur = root
+        parts = e['rel'].split('/')
+        for d in parts[:-1]:
+            cur = cur.setdefault(d, {})
+        if e['kind'] == 'dir':
+            cur.setdefault(parts[-1], {})
+        else:
+            cur[parts[-1]] = None
+    for d in (c['sub'].split('/') if c['sub'] else []):
+        root = root[d]
+    return root
+
+
+def bnode(t):
+    if t is None:
+        return b8(0)
+    # os.ReadDir order: sorted by file name (bytes)
+    return b8(1) + blist(bstr(k) + bnode(t[k]) for k in sorted(t, key=lambda x: x.encode()))
+
+
+def walk_v(cases):
+    data = blist(
+        lcase_bytes(c, []) + bstr(c['arg']) + bnode(walk_tree(c)) + b8(1 if c['mode'] == 'filter' else 0)
+        + bopt(None if c.get('err') else bstrs(c['kept']))
+        for c in cases)
+    return (HEAD + 'Definition data : list (list int) := %s.\n' % to_ints_v(data) +
+            'Definition R := Eval vm_compute in walk_report data.\n'
+            'Definition RN := Eval vm_compute in [fst R].\nDefinition RT := Eval vm_compute in snd R.\nPrint RN. Print RT.\n')
 
 
 def lsp_v(cases):
@@ -265,6 +311,19 @@ def small_predicate(c):
     return None
 
 
+def walk_root_matched(c):
+    """some single-component pattern of the case matches (as a shell glob) the name of the project root or of a directory
+    above it (evidence only: how often the direction of seeded change C05-4 is exercised)"""
+    import fnmatch
+    names = c['root'].split('/')[2:]
+    pats = (c['cli'] or []) + (c['cfg'] or []) + sum((c['rule_ignore'].get(k) or [] for k in KINDS), [])
+    for p in pats:
+        q = p.strip('/')
+        if q and '/' not in q and any(fnmatch.fnmatchcase(n, q) for n in names):
+            return True
+    return False
+
+
 def cli_relative_elsewhere(c):
     """CLI run whose path argument is relative to a working directory other than the project root"""
     return c['mode'] == 'cli' and not c['arg'].startswith('/') and c.get('cwd', '') != ''
@@ -310,6 +369,73 @@ def lint_predicate(c):
             extra = sorted(set(got) - set(exp))
             missing = sorted(set(exp) - set(got))
             return '%s rule: violations in ignored files %r, none in unignored files %r' % (k, extra, missing)
+    return None
+
+
+WALK_SKIP = ('.git', '.idea', 'node_modules')
+
+
+def walk_expected(c):
+    """what the property says a directory argument yields, from the tree alone: the .rego files below the argument
+    that are not below a skipped directory, in walk order, as (root-relative name, name as the walk spells it)"""
+    sub = c['sub']
+    own = os.path.basename(c['arg'].rstrip('/') or '/')
+    if own in WALK_SKIP:
+        return []
+    out = []
+    for e in c['entries']:
+        rel = e['rel']
+        if e['kind'] != 'file' or not rel.endswith('.rego') or (sub and not rel.startswith(sub + '/')):
+            continue
+        below = rel[len(sub) + 1:] if sub else rel
+        if any(d in WALK_SKIP for d in below.split('/')[:-1]):
+            continue
+        out.append((below.split('/'), rel, os.path.normpath(os.path.join(c['arg'], below))))
+    out.sort(key=lambda x: [k.encode() for k in x[0]])
+    return [(rel, sp) for _, rel, sp in out]
+
+
+def walk_predicate(c):
+    """patterns apply to the path relative to the project root (the prefix) only -- never to the root's own name or to
+    the directories above it; without a prefix an absolute name is relative to the file system root (documented)"""
+    tbl = {r[0]: (None if r[1] == 'bad' else set(r[2:])) for r in (c['table'] or [])}
+
+    def match(p, r):
+        return p != '' and any(tbl.get(e) is not None and r in tbl[e] for e in c['compiler'][p])
+
+    def match_any(ps, r):
+        return any(match(p, r) for p in ps)
+    if c.get('err'):
+        if any(v is None for v in tbl.values()):
+            return None
+        return 'failed: %s' % c['err']
+    exp = walk_expected(c)
+    glob = c['cli'] if c['cli'] else (c['cfg'] if c['cfg_set'] else [])
+
+    def true_rel(rel, spelled):
+        if c['prefix'] == '' and not c['rel_arg']:
+            return spelled[1:]
+        return rel
+    scanned = [(rel, sp) for rel, sp in exp if not match_any(glob, true_rel(rel, sp))]
+    if c['mode'] == 'filter':
+        if c['kept'] != [sp for _, sp in scanned]:
+            missing = [sp for _, sp in scanned if sp not in c['kept']]
+            extra = [k for k in c['kept'] if k not in [sp for _, sp in scanned]]
+            return 'FilterIgnoredPaths([%s], %r, true, %r): dropped although matching no pattern %r, kept although matching %r%s' % (
+                c['arg'], glob, c['prefix'], missing, extra, '' if missing or extra else ' (order differs)')
+        return None
+    if c['files_scanned'] != len(scanned):
+        return 'files_scanned = %d, but %d of the %d files below the argument match no global ignore pattern (not matching: %r)' % (
+            c['files_scanned'], len(scanned), len(exp), [sp for _, sp in scanned])
+    for k in KINDS:
+        ign = c['rule_ignore'].get(k, [])
+        want = sorted(sp for rel, sp in scanned if not match_any(ign, true_rel(rel, sp)))
+        if k == 'agg' and (len(scanned) < 2 or match_any(glob + ign, '__aggregate_report__')):
+            want = []
+        got = sorted(c['hit'][k])
+        if got != want:
+            return '%s rule: violations in ignored files %r, none in unignored files %r' % (
+                k, sorted(set(got) - set(want)), sorted(set(want) - set(got)))
     return None
 
 
@@ -360,6 +486,7 @@ def run(ctx):
     smalls = [r for r in rows if r['kind'] == 'small']
     lints = [r for r in rows if r['kind'] == 'lint']
     panics = [r for r in rows if r['kind'] == 'engine-panic']
+    walks = [r for r in rows if r['kind'] == 'walk']
 
     # ---- model side: evaluate the cases inside Coq (chunks in parallel)
     chunk = 160 if ctx.quick() else 250
@@ -373,6 +500,8 @@ def run(ctx):
 
     for lo in range(0, len(lsps), 400):
         jobs.append(('lsp', lo, len(lsps[lo:lo + 400]), lsp_v(lsps[lo:lo + 400])))
+    for lo in range(0, len(walks), 150):
+        jobs.append(('walk', lo, len(walks[lo:lo + 150]), walk_v(walks[lo:lo + 150])))
 
     def ev(job):
         kind, lo, n, text = job
@@ -381,6 +510,7 @@ def run(ctx):
             raise RuntimeError('case evaluation failed (%s %d):\n%s' % (kind, lo, cout[-3000:]))
         return kind, lo, n, cout
     pat_fail, small_fail, lint_fail, lsp_fail, rel_fail = {}, {}, {}, {}, set()
+    walk_fail = {}
     with ThreadPoolExecutor(max_workers=min(14, max(1, len(jobs)))) as ex:
         for kind, lo, n, cout in ex.map(ev, jobs):
             if kind == 'pat':
@@ -393,6 +523,9 @@ def run(ctx):
             elif kind == 'lsp':
                 for i, cs in codes(cout, 'RW', n).items():
                     lsp_fail[lo + i] = cs
+            elif kind == 'walk':
+                for i, cs in codes(cout, 'RT', n).items():
+                    walk_fail[lo + i] = cs
             else:
                 for i, cs in codes(cout, 'RL', n).items():
                     lint_fail[lo + i] = cs
@@ -459,6 +592,23 @@ def run(ctx):
                                signature={'kind': 'lint', 'key': json.dumps([c['mode'], c['prefix'], c.get('cwd'), c.get('arg'), c['files'],
                                                                              c['cli'], c['cfg'], c['rule_ignore']], sort_keys=True)})
 
+    walk_viol = 0
+    for i, c in enumerate(walks):
+        w = walk_predicate(c)
+        if w:
+            explained.add(('walk', i))
+            walk_viol += 1
+            if walk_viol <= 3:
+                how = {'filter': 'config.FilterIgnoredPaths', 'lint': 'linter.Lint(WithInputPaths)', 'cli': 'regal lint'}[c['mode']]
+                vlib.violation(ctx, {'kind': 'walk', 'case': {k: c[k] for k in ('kind', 'src', 'mode', 'anc', 'root', 'entries', 'sub', 'arg', 'rel_arg',
+                                                                                'prefix', 'cli', 'cfg', 'cfg_set', 'rule_ignore')},
+                                     'observed': {k: c.get(k) for k in ('kept', 'files_scanned', 'hit', 'err')},
+                                     'what': '%s on the directory %s (project root %s%s, prefix %r), cli %r, config %r, per rule %r: %s' % (
+                                         how, c['arg'], c['root'], ', working directory = root' if c['rel_arg'] else '', c['prefix'], c['cli'],
+                                         c['cfg'] if c['cfg_set'] else None, c['rule_ignore'], w)},
+                               signature={'kind': 'walk', 'key': json.dumps([c['mode'], c['root'], c['sub'], c['arg'], c['prefix'], c['cli'], c['cfg'],
+                                                                             c['rule_ignore'], [e['rel'] for e in c['entries']]], sort_keys=True)})
+
     lsp_viol = 0
     for i, c in enumerate(lsps):
         w = lsp_predicate(c)
@@ -485,6 +635,10 @@ def run(ctx):
     for i, cs in sorted(lsp_fail.items()):
         if ('lsp', i) not in explained:
             corr.append({'layer': 'lsp', 'codes': cs, 'case': {k: lsps[i][k] for k in ('root', 'uris', 'ignore', 'ignored', 'modules')}})
+    for i, cs in sorted(walk_fail.items()):
+        if ('walk', i) not in explained:
+            corr.append({'layer': 'walk', 'codes': cs, 'case': {k: walks[i].get(k) for k in ('mode', 'root', 'sub', 'arg', 'prefix', 'cli', 'cfg',
+                                                                                           'rule_ignore', 'entries', 'kept', 'files_scanned', 'hit', 'err')}})
     for s in sorted(rel_fail):
         corr.append({'layer': 'relativise', 'shape': shapes[s]['name'], 'prefix': shapes[s]['prefix']})
     if corr and not ctx.violations:
@@ -492,7 +646,8 @@ def run(ctx):
                              'relation': 'Check.C05Check (codes: pat 1 = rego_expand vs _pattern_compiler, 2 = oracle table lacks a row/column, '
                                          '1000+s = go_exclude_file/go_rel vs FilterIgnoredPaths on shape s, 2000+s = rego_exclude/rego_rel vs '
                                          '_exclude; small 1 = go_filter_ignored_paths, 2 = rego_global, 3 = rego_rel, 4/5 = rego_excluded_file, '
-                                         '9 = table; lsp 1 = lsp_ignore_uri vs ignoreURI, 2 = lsp_filtered_modules vs getFilteredModules; lint 1 = error, 2 = files_scanned, 3/4/5 = hits of builtin/custom/aggregate rule, 9 = table)',
+                                         '9 = table; walk 1 = error, 7 = go_walk_filter (Discover.walk + go_filter_paths) vs FilterIgnoredPaths on a directory, '
+                                         '2..5 = lint codes with the files the model walk finds, 9 = table; lsp 1 = lsp_ignore_uri vs ignoreURI, 2 = lsp_filtered_modules vs getFilteredModules; lint 1 = error, 2 = files_scanned, 3/4/5 = hits of builtin/custom/aggregate rule, 9 = table)',
                              'n_mismatches': len(corr), 'first': corr[:5]}, no_input=True)
     proof_gate(ctx)
 
@@ -523,8 +678,10 @@ def run(ctx):
     if lints:
         samples.append({k: lints[-1].get(k) for k in ('mode', 'prefix', 'cli', 'cfg', 'rule_ignore', 'files_scanned', 'hit')})
     cov = proof_coverage(ctx, {
-        'evaluations': len(pats) * nfiles * 2 + sum(len(c['files']) for c in smalls) * 3 + len(lints) + sum(len(c['uris']) for c in lsps) * 2,
-        'distinct_nontrivial': nontrivial + small_nt + lint_nt + sum(1 for c in lsps if 0 < len(c['modules']) < len(c['uris'])),
+        'evaluations': len(pats) * nfiles * 2 + sum(len(c['files']) for c in smalls) * 3 + len(lints) + sum(len(c['uris']) for c in lsps) * 2
+                       + len(walks),
+        'distinct_nontrivial': nontrivial + small_nt + lint_nt + sum(1 for c in lsps if 0 < len(c['modules']) < len(c['uris']))
+                               + sum(1 for c in walks if not c.get('err') and 0 < c['files_scanned'] < len(walk_expected(c))),
         'rule': 'pat: every token pattern (<= 3 tokens exhaustive, 4 tokens %s) over {a, b.rego, *, **, ?, /, [ab]} plus odd and malformed '
                 'ones, each against %d files in %d (prefix, spelling) shapes on both matchers; non-trivial = the pattern excludes some but '
                 'not all of the 340 relative paths. small: pattern lists with distinct kept sets strictly between none and all. lint: runs '
@@ -540,10 +697,18 @@ def run(ctx):
                            'note': 'patterns with an expansion gobwas/glob cannot compile: Go aborts with an error, Rego treats it as '
                                    'no match (recorded, not flagged); patterns on which the engine itself panics are skipped'},
         'mismatch_model_pat': len(pat_fail), 'mismatch_model_small': len(small_fail), 'mismatch_model_lint': len(lint_fail),
-        'mismatch_model_relativise': len(rel_fail), 'mismatch_model_lsp': len(lsp_fail),
+        'mismatch_model_relativise': len(rel_fail), 'mismatch_model_lsp': len(lsp_fail), 'mismatch_model_walk': len(walk_fail),
+        'walk_cases': len(walks), 'walk_modes': dict(collections.Counter(c['mode'] for c in walks)),
+        'walk_argument_forms': dict(collections.Counter(
+            ('.' if c['arg'] in ('.', './') else 'relative-sub' if c['rel_arg'] else 'absolute/' if c['arg'].endswith('/') else 'absolute')
+            + ('|sub' if c['sub'] and not c['rel_arg'] else '') + '|prefix=' + ('none' if c['prefix'] == '' else 'root/' if c['prefix'].endswith('/') else 'root')
+            for c in walks)),
+        'walk_root_or_ancestor_name_matches_a_pattern': sum(1 for c in walks if walk_root_matched(c)),
+        'walk_nontrivial': sum(1 for c in walks if not c.get('err') and 0 < c['files_scanned'] < len(walk_expected(c))),
         'lsp_cases': len(lsps), 'lsp_uris': sum(len(c['uris']) for c in lsps),
         'lsp_nontrivial': sum(1 for c in lsps if 0 < len(c['modules']) < len(c['uris'])),
-        'predicate_failures': {'pat': pat_viol, 'small': small_viol, 'lint': lint_viol, 'lsp': lsp_viol, 'go_error_unexplained': n_go_err_unexplained},
+        'predicate_failures': {'pat': pat_viol, 'small': small_viol, 'lint': lint_viol, 'lsp': lsp_viol, 'walk': walk_viol,
+                               'go_error_unexplained': n_go_err_unexplained},
         'samples': samples, 'timing_s': tm,
         'exhaustive': False,
     })
@@ -554,7 +719,9 @@ def run(ctx):
         'domain: every expansion of every non-empty pattern compiles; outside it Go returns an error and Rego says "no match" '
         '(c05_exclude_agree / c05_filter_exact_partial still hold, c05_filter_error_only_uncompilable characterises the error)',
         'rule bodies are an oracle (fires); the harness uses three rules that fire once in every file',
-        'file discovery (walk, .rego suffix, skipped directories) is not part of this model; lint cases pass explicit files',
+        'file discovery is Model/Discover.v walk (property C02) with the pinned constants (.rego; .git, .idea, node_modules); the walk layer '
+        'composes it with the matcher on real trees given as directory arguments; the other lint cases pass explicit files; symbolic '
+        'links and unreadable directories are outside',
         'LSP call sites ignoreURI / getFilteredModules are driven directly (overlay test in package lsp) with the generic client '
         'and names without percent escapes; uri.ToPath is modelled as TrimPrefix(uri, "file://") for those',
     ])
